@@ -144,6 +144,18 @@ def run(ctx):
                     ob.require(len(nl) >= 1, 'constructor can return a wallet', fi.where)
                     same_wallet(ob, ev, v, f, cls, exp, '%s builds the wallet of the BIP39/BIP32 master for its arguments '
                                 '(password, mnemonic and network forwarded unchanged)' % name, fi.where)
+            # other spellings of the same seed: a constructor that is lenient about the text it takes (a 0x prefix, as printed
+            # by hex()) must still build the wallet of the bytes the text spells - or refuse.  Decided on '0x' + HEX(b).
+            fi = p.get_function('base_wallet.BaseWallet.from_bip39_seed_hex')
+            with ctx.obligation('C03.SPELLING', 'BaseWallet.from_bip39_seed_hex', cfg, fi.where) as ob:
+                b64 = S('seed_bytes', type='bytes', len=64)
+                for what, text in (("'0x' + hex", T.cat(T.const('0x'), T.raw_op('HEX', b64))),):
+                    e3 = Evaluator(p, be, summaries=summ)
+                    v, f = e3.call_function('base_wallet.BaseWallet.from_bip39_seed_hex', [T.clsref(cls), text, tn])
+                    ob.evaluations += 1
+                    if normal_leaves(v):
+                        same_wallet(ob, e3, v, f, cls, wallet_of(b64), 'from_bip39_seed_hex accepts the spelling %s of a seed: the wallet '
+                                    'it builds is the wallet of those seed bytes (leading zero bytes included)' % what, fi.where)
             # the seed routes must not refuse a seed that BIP32 allows (16..64 bytes, valid left half): any refusal has to
             # depend on the seed's length being outside that range or on the key being invalid
             fi = p.get_function('base_wallet.BaseWallet.from_bip39_seed_bytes')
